@@ -201,7 +201,7 @@ func (c *client) PushBlobChunkedResume(ctx context.Context, repo string, id stri
 		}
 		resp, err := c.do(req, http.StatusNoContent)
 		if err != nil {
-			return nil, fmt.Errorf("cannot recover chunk offset: %v", err)
+			return nil, fmt.Errorf("cannot recover chunk offset: %w", err)
 		}
 		location, err = locationFromResponse(resp)
 		if err != nil {
